@@ -279,6 +279,16 @@ pub fn run(tier: Tier) -> i32 {
                 }
             }));
         }
+        // tokens the scanner skips (a lone hyphen, a blank) between hinted tokens: the hint still refers to the nearest
+        // token the scanner looks at
+        {
+            let sk: Vec<String> = vec![c.tens.clone(), c.unit.clone(), format!("~{}", c.unit), format!("~{}", c.tens), "-".to_string(), " ".to_string(), format!("!{}", c.unit), ",".to_string(), c.hundred.clone(), format!("~{}", c.hundred)];
+            total.merge(explore::all_sequences2(&sk, 4, |syms, acc| {
+                if syms.iter().any(|s| *s == "-" || *s == " ") && syms.iter().any(|s| s.len() > 1 && (s.starts_with('~') || s.starts_with('!'))) {
+                    one_stream(&ctx, acc, l, &lang, syms, &thrs_deep)
+                }
+            }));
+        }
         // long streams: every pattern of <= 3 of those symbols repeated r times
         total.merge(explore::all_repetitions(&la, 3, 2..=rmax, |syms, acc| one_stream(&ctx, acc, l, &lang, syms, &thrs_deep)));
         total.sample(json!({"lang": l.code(), "stream": [a[0], a[nw + 1], a[2 * nw + 2]]}));
@@ -286,7 +296,7 @@ pub fn run(tier: Tier) -> i32 {
     let cov = json!({
         "exhaustive": true,
         "rule": "every token stream of length <= k where each token is plain, '~' (unrelated to its predecessor) or '!' (not a number part); lazy iterator compared with batch search, pulls on the underlying stream counted, '~' compared with an inserted comma; non-trivial = streams with at least one number",
-        "bounds": {"wide_words": nw, "wide_depth": k, "deep_words": nw2, "deep_depth": k2, "decorations": 3, "lookahead_symbols": 7, "lookahead_depth": kla, "long_streams": {"pattern_depth": 3, "repetitions_up_to": rmax}},
+        "bounds": {"wide_words": nw, "wide_depth": k, "deep_words": nw2, "deep_depth": k2, "decorations": 3, "skipped_token_stage": "tens, unit, hundred, ~unit, ~tens, ~hundred, !unit, lone hyphen, blank, comma; depth 4", "lookahead_symbols": 7, "lookahead_depth": kla, "long_streams": {"pattern_depth": 3, "repetitions_up_to": rmax}},
         "thresholds_wide": thrs_wide.iter().map(|t| thr_name(*t)).collect::<Vec<_>>(),
         "thresholds_deep": thrs_deep.iter().map(|t| thr_name(*t)).collect::<Vec<_>>(),
         "alphabets": alphas,
